@@ -49,6 +49,18 @@ var collExact = vkit.NewCollector("C06", "TestExactlyOnce", "2-7 handlers in dra
 
 func TestExactlyOnce(t *testing.T) { vkit.Check(t, collExact, GenExact, RunExact) }
 
+var collPanicWork = vkit.NewCollector("C06", "TestPanicWorkCovered", "synctest bubble, fake clock: 1-8 publishes to 1-3 Async (half Async+Sequential) handlers that work 0-4 ms and panic on every / every 2nd / every 3rd event or never; the bus's panic handler works 0-30 ms and then publishes a dead-letter event to an Async handler that works 0-10 ms; then Wait or Shutdown(background) over a store that counts Close. Oracle when they return: no panic handler is still running, every dead-letter delivery has finished, Close happened once and not while any of that work ran; the panic handler was called once per panic. Non-trivial = at least one panic.")
+
+func TestPanicWorkCovered(t *testing.T) {
+	rapid.Check(t, func(rt *rapid.T) {
+		c := GenPanicWork(rt)
+		if v := collPanicWork.Account(c, RunPanicWork(t, c)); v != nil {
+			vkit.SaveFail("C06", "TestPanicWorkCovered", c, v)
+			rt.Fatalf("%s", v.Error())
+		}
+	})
+}
+
 var collRace = vkit.NewCollector("C06", "TestWaitRace", "free-running stress on real goroutines (race detector on): 200-600 rounds per case in which a quick Async handler signals that it is about to return and spins for a varying time, the publisher publishes a second event as soon as it sees the signal and calls Wait (mode publish), or calls Wait after a varying spin of its own with no further publish (mode last), or publishes to a trivial handler and calls Wait after a varying distance with no handshake (mode free); oracle = every invocation finished when Wait returns, and Wait returns: a Wait still blocked 40 s after every invocation has finished, with nothing moving, is a hang. Non-trivial = >=2 rounds.")
 
 var collTrickle = vkit.NewCollector("C06", "TestWaitTrickle", "free-running volume stress on real goroutines (no race detector): 100-300 rounds per case in which 5-40 events are published with small varying gaps to 1-16 Async handlers (three quarters of the cases with Sequential), then Wait; oracle = every delivery has run when Wait returns, and Wait returns (stall oracle as in TestWaitRace). Non-trivial = >=2 rounds.")
@@ -60,5 +72,5 @@ func TestWaitRace(t *testing.T) { vkit.Check(t, collRace, GenRace, RunRace) }
 func TestReplay(t *testing.T) {
 	r := vkit.NeedReplay(t)
 	_ = vkit.ReplayCase(t, r, coll, func(c *Case) *vkit.Outcome { return Run(t, c) }) ||
-		vkit.ReplayCase(t, r, collRace, RunRace) || vkit.ReplayCase(t, r, collTrickle, RunRace) || vkit.ReplayCase(t, r, collCancel, func(c *CancelCase) *vkit.Outcome { return RunCancel(t, c) }) || vkit.ReplayCase(t, r, collRunning, func(c *RunningCase) *vkit.Outcome { return RunRunning(t, c) }) || vkit.ReplayCase(t, r, collExact, RunExact)
+		vkit.ReplayCase(t, r, collRace, RunRace) || vkit.ReplayCase(t, r, collTrickle, RunRace) || vkit.ReplayCase(t, r, collCancel, func(c *CancelCase) *vkit.Outcome { return RunCancel(t, c) }) || vkit.ReplayCase(t, r, collRunning, func(c *RunningCase) *vkit.Outcome { return RunRunning(t, c) }) || vkit.ReplayCase(t, r, collExact, RunExact) || vkit.ReplayCase(t, r, collPanicWork, func(c *PanicWorkCase) *vkit.Outcome { return RunPanicWork(t, c) })
 }
